@@ -2,7 +2,7 @@
 """Regenerates /verif/MANIFEST.json. CLAIMED lists the properties whose check is built and passing."""
 import json, subprocess
 CLAIMED = ["C01", "C02", "C03", "C04", "C05", "C06", "C07", "C08", "C09", "C10", "C11", "C12", "C13", "C14", "C15", "C16", "C17", "C18", "C19", "C20"]
-HOOK_COMMITS = ["a7d5338", "ad662b0"]
+HOOK_COMMITS = ["a7d5338", "ad662b0", "dbf78ac"]
 T = {
  "C01": ("token-sequence DFS with exact dead-prefix pruning + signal-placement matrix + byte strings + edit neighbourhoods, outcome-class oracle", "4 (C01)"),
  "C02": ("exhaustive rule sequences x input configurations against the rule-schedule model", "4 (C02), 3.13"),
